@@ -247,12 +247,23 @@ def case_atoms(obj):
             yield from case_atoms(v)
 
 
+def _s4a_below(lo_text: str, hi_text: str) -> bool:
+    """The range [lo, X.postN) is only rendered lossily when it is not empty, i.e. lo < X.postN.  Anything that does
+    not parse keeps the conservative answer (the pair may be the known finding)."""
+    from packaging.version import InvalidVersion, Version
+
+    try:
+        return Version(lo_text[:-2] if lo_text.endswith(".*") else lo_text) < Version(hi_text)
+    except InvalidVersion:
+        return True
+
+
 def s4a_case(case) -> bool:
     atoms = list(case_atoms(case))
     for a in atoms:
         if a["op"] == "<" and "post" in a["val"]:
             fam = _PY if a["var"] in _PY else (a["var"],)
             for b in atoms:
-                if b is not a and b["var"] in fam and (b["op"] in (">=", "~=") or (b["op"] == "==" and b["val"].endswith(".*"))):
+                if b is not a and b["var"] in fam and (b["op"] in (">=", "~=") or (b["op"] == "==" and b["val"].endswith(".*"))) and _s4a_below(b["val"], a["val"]):
                     return True
     return False
